@@ -1,9 +1,11 @@
 #!/usr/bin/env python3
-"""Print the markdown table of seeded regressions and which checks catch them (from seeded/*/meta.json)."""
-import json, glob, os
+"""Print the markdown table of seeded regressions and which checks catch them (from seeded/*/meta.json).
+With --write: replace the block between '#### Catch table' and the paragraph starting 'Two classes of my own false alarms' in DESIGN.md."""
+import json, glob, os, sys
 HERE = os.path.dirname(os.path.abspath(__file__))
-print('| seeded change | property | what it needs to manifest | own check (quick) | other checks run |')
-print('|---|---|---|---|---|')
+rows = ['| seeded change | property | what it needs to manifest | own check (quick) | other checks run |', '|---|---|---|---|---|']
+n = caught = 0
+missed = []
 for d in sorted(glob.glob(os.path.join(HERE, 'seeded', '*'))):
     mp = os.path.join(d, 'meta.json')
     if not os.path.exists(mp):
@@ -11,4 +13,24 @@ for d in sorted(glob.glob(os.path.join(HERE, 'seeded', '*'))):
     m = json.load(open(mp)); name = os.path.basename(d); prop = m['breaks_property']
     res = m.get('checks_result', {})
     others = ', '.join(f'{c} {v.lower()}' for c, v in res.items() if c != prop)
-    print(f"| {name} | {prop} | {m.get('needs_to_manifest','')} | {res.get(prop,'?').lower()} | {others} |")
+    own = res.get(prop, '?').lower()
+    n += 1
+    if own == 'caught':
+        caught += 1
+    else:
+        missed.append(name)
+    rows.append(f"| {name} | {prop} | {m.get('needs_to_manifest','')} | {own} | {others} |")
+table = '\n'.join(rows)
+if '--write' not in sys.argv:
+    print(table)
+    sys.exit(0)
+p = os.path.join(HERE, 'DESIGN.md')
+s = open(p).read()
+a = s.index('#### Catch table')
+b = s.index('Two classes of my own false alarms')
+head = ('#### Catch table\n\nAs recorded in `seeded/<name>/meta.json` by `tools_seeded_table.py` (quick tier, seed 0, each patch applied in a scratch worktree, '
+        'verdict "caught" = exit 1 with a VIOLATION line of the property\'s own check; the last column lists other checks that were run against '
+        'the same patch at some point of the build - informational, possibly from an earlier state of those checks). '
+        f'{caught} of {n} are caught by the own check; not caught: {", ".join(missed) or "none"} (see "undetected by design" above).\n\n')
+open(p, 'w').write(s[:a] + head + table + '\n\n' + s[b:])
+print(f'written: {caught}/{n}, not caught: {missed}')
